@@ -241,7 +241,7 @@ def main():
                                        "against sidecar contracts; obligations discharged by z3, cvc5 as second solver; counter-models replayed on the real code"}],
         "checks": checks,
         "not_applicable": na,
-        "notes": "Exit codes of ./check: 0 held, 1 violation (VIOLATION line), 2 undecided (unsupported construct / solver unknown without baseline), 3 checker error. "
+        "notes": "Exit codes of ./check: 0 held, 1 violation (VIOLATION line), 2 undecided (unsupported construct, or an obligation of a changed function that no solver decides), 3 checker error. "
                  "Known findings: /verif/findings/known_findings.jsonl.",
     }
     json.dump(manifest, open(os.path.join(HERE, "MANIFEST.json"), "w"), indent=1)
